@@ -434,7 +434,8 @@ except ImportError:
             if state == _UTF8_REJECT:
                 return False
 
-        return True
+        # a multi-byte sequence that is cut short at the end is not valid UTF-8
+        return state == _UTF8_ACCEPT
 
 
 def validate_utf8(utfbytes: Union[str, bytes]) -> bool:
